@@ -257,7 +257,8 @@ def fresh(v: Any) -> Any:
 STRS = ["", "a", "b", "A", "B", "ab", "aB", "Ab", "b a", "é", "日本", "z10", "z9", "10", "9", "-3", " 7",
         "x-2y", "a1b22", "1.5", "𝒳", MAX_CH, "ß", "a,b", ",", "Zz", "zz"]
 INTS = [0, 1, -1, 2, 3, 10, -7, 255, 10 ** 20, -(10 ** 20), 10 ** 60 - 1, -(10 ** 60) + 1, 2 ** 63]
-FLOATS = [0.5, 1.0, -1.5, 2.5, 0.0, 100.0, 1e20, 0.1, 3.25]
+NONDYADIC = [0.1, 0.2, 0.7, 1.1, 2.675, 1e-07, -0.1, -0.3, -1.1, 0.3, 1.005, 33.33, -2.675, 0.6, 1e-05]
+FLOATS = [0.5, 1.0, -1.5, 2.5, 0.0, 100.0, 1e20, 0.1, 3.25] + NONDYADIC
 KEYS = ["k", "n", "t"]
 
 
@@ -709,6 +710,21 @@ def gen_cases(g: Gen, tier: str) -> list[dict[str, Any]]:
         for b_ in (2, -2, 0.5, -1.5):
             for name in ("modulo", "plus", "minus", "times", "at_least", "at_most"):
                 add("num", name, a_, (b_,))
+
+    # decimal arithmetic on floats goes through their shortest repr: 0.1 + 0.2 is 0.3
+    for xs in ([0.1, 0.2], [0.1, 0.2, 0.7], [1.1, 2.675, -0.3], [1e-07, 0.2, 3], ["0.1", 0.2, 1], [0.1] * 10,
+               [-0.1, -0.2, 0.3], [33.33, 1.005, 1e-05, -2.675], [0.7, 0.1, "x", None, True, [0.2]]):
+        add("seq", "sum", xs, ())
+        hk = [{"k": x, "id": i} for i, x in enumerate(xs)] + [{"id": -1}]
+        add("seq", "sum", hk, ("k",))
+        add("seq", "sum", hk, (), ("k", False, None))
+    for a_ in NONDYADIC:
+        for b_ in (0.2, -0.7, 3, 1.1, "0.1"):
+            for name in ("plus", "minus", "times", "modulo", "at_least", "at_most", "divided_by"):
+                add("num", name, a_, (b_,))
+        for name in ("round", "ceil", "floor", "abs"):
+            add("num", name, a_, ())
+        add("num", "round", a_, (g.pick([1, 2, 3]),))
 
     # ---------------- sequence filters
     def key_arg() -> Any:
@@ -1206,6 +1222,29 @@ class Laws:
         self.expect("uniq-by-equality", len(gotp) == len(wantp) and all(a is b for a, b in zip(gotp, wantp)),
                     "uniq does not keep the first of each ==-class of hashes", **rp, got=gotp, want=wantp)
 
+    def sum_fold_laws(self, xs: list) -> None:
+        """sum(xs) is the plus chain over xs (both add the decimals the floats print as), in the
+        plain, 'k' and i => i.k forms; the few-digit operands make every partial sum exact."""
+        rp = {"xs": xs}
+        chain: Any = 0
+        for x in xs:
+            chain = self.f("plus", chain, x)
+        exact = sum((Decimal(repr(x)) if isinstance(x, float) else Decimal(x) for x in xs), Decimal(0))
+        want = float(exact) if any(isinstance(x, (float, str)) and not str(x).lstrip("-").isdigit() for x in xs) \
+            else int(exact)
+        got = self.f("sum", xs)
+        self.expect("sum-is-plus-chain", same(got, chain) and same(got, want),
+                    "sum differs from the chain of plus over the same numbers / from exact decimal addition",
+                    **rp, got=got, chain=chain, want=want)
+        hs = [{"k": x, "id": i} for i, x in enumerate(xs)]
+        hs.insert(len(hs) // 2, {"id": -1})
+        gk = self.f("sum", hs, "k")
+        self.expect("sum-key-is-plus-chain", same(gk, chain), "sum: 'k' differs from the chain of plus", **rp,
+                    got=gk, chain=chain)
+        gl = self.lam("sum", hs, "k")
+        self.expect("sum-lambda-is-plus-chain", gl[0] == "ok" and same(gl[1], chain),
+                    "sum: i => i.k differs from the chain of plus", **rp, got=gl, chain=chain)
+
     def mutation_laws(self, a: list) -> None:
         import copy
         rp = {"a": a}
@@ -1277,7 +1316,7 @@ class Laws:
         for n in (-2, 0, 1, 2, 3, len(s) - 1, len(s), len(s) + 1):
             for end in ("...", "", t):
                 out = f("truncate", s, n, end)
-                ok = (out == s and len(s) < max(n, 0) + 1) if len(s) < n else out == s[:max(0, n - len(end))] + end
+                ok = out == s if len(s) <= n else out == s[:max(0, n - len(end))] + end
                 self.expect("truncate-spec", ok and (len(out) <= max(n, len(end)) or out == s),
                             "truncate is neither the input nor prefix+end, or is longer than max(n, |end|)", **rp,
                             n=n, end=end, out=out)
@@ -1285,7 +1324,7 @@ class Laws:
         for n in (0, 1, 2, len(words), len(words) + 1):
             out = f("truncatewords", s, n)
             m = max(n, 1)
-            self.expect("truncatewords-spec", out == (" ".join(words) if len(words) < m else " ".join(words[:m]) + "..."),
+            self.expect("truncatewords-spec", out == (" ".join(words) if len(words) <= m else " ".join(words[:m]) + "..."),
                         "truncatewords", **rp, n=n, out=out)
 
     # -- numbers
@@ -1366,6 +1405,10 @@ FIXED_WITNESSES: list[tuple[str, str, dict, str]] = [
     ("float-modulo-decimal-InvalidOperation", "{{ 1 | modulo: 0.0 }}", {}, "raises LiquidTypeError"),   # C02/0004
     ("float-modulo-sign", "{{ -7.0 | modulo: 2 }}|{{ 7.5 | modulo: -2 }}", {}, "1.0|-0.5"),
     ("remove-last-at-start", "{{ 'abc' | remove_last: 'a' }}|{{ 'abc' | replace_last: 'a', 'x' }}", {}, "bc|xbc"),
+    ("truncatewords-exact-count-ellipsis", "{{ 'a b c' | truncatewords: 3 }}|{{ 'a b c' | truncatewords: 2 }}", {},
+     "a b c|a b..."),                                                                       # C19/0010
+    ("truncate-exact-length-ellipsis", "{{ 'abc' | truncate: 3 }}|{{ 'hello' | truncate: 5 }}|{{ 'abcd' | truncate: 3 }}",
+     {}, "abc|hello|..."),                                                                  # C19/0011
     # repaired in /repo by the C02 work (1faa9bc, 0b0af38, 8585e2b, e45da5e)
     ("uniq-index-key-IndexError", "{{ x | uniq: 0 | join: ',' }}", {"x": ["", "ab", "", "ac"]}, ",ab"),
     ("compact-index-key-IndexError", "{{ x | compact: 0 | join: ',' }}", {"x": ["", "ab", "c"]}, "ab,c"),
@@ -1413,11 +1456,16 @@ def correspond_robust(chk: C.Check, items: list[dict[str, Any]]) -> None:
     chk.coverage.setdefault("correspondence_wall_s", {})["filters (all cases)"] = round(wall, 1)
 
 
-KNOWN_WITNESSES: list[tuple[str, str, dict, str]] = [
+# (signature, template, data, what the defect renders, description): reported while the defect is there
+KNOWN_WITNESSES: list[tuple[str, str, dict, str, str]] = [
     ("sort-missing-key-non-string-property", "{{ x | sort: 'k' | map: 'k' | join: ',' }}",
-     {"x": [{"k": 2}, {}, {"k": 1}]},
+     {"x": [{"k": 2}, {}, {"k": 1}]}, "raises LiquidTypeError",
      "sort: 'k' fails with LiquidTypeError when the property is numeric and one hash lacks it, although items "
      "without the property are documented to go last"),
+    ("round-half-even-ties", "{{ 2.5 | round }}|{{ -2.5 | round }}|{{ 0.5 | round }}|{{ 1.5 | round }}|{{ 0.25 | round: 1 }}",
+     {}, "2|-2|0|2|0.2",
+     "round sends an exact half to the even neighbour (Python's round) where Liquid rounds half away from zero "
+     "(3|-3|1|2|0.3)"),
 ]
 
 
@@ -1441,13 +1489,12 @@ def main(chk: C.Check, build: C.Build) -> None:
                         {"template": src, "data": data, "got": got, "expected": want})
 
     # ---- known findings: the recorded witnesses, re-observed on every run
-    for sig, src, data, what in KNOWN_WITNESSES:
+    for sig, src, data, defect, what in KNOWN_WITNESSES:
         try:
             got = impl.plain.from_string(src).render(**data)
-            bad = None
         except Exception as e:  # noqa: BLE001
-            got, bad = f"{type(e).__name__}: {e}".splitlines()[0], classify_exc(e)
-        if sig == "sort-missing-key-non-string-property" and bad == ("lerr", "LiquidTypeError"):
+            got = f"raises {type(e).__name__}"
+        if got == defect:
             chk.finding(sig, what + f" ({src} -> {got})", {"template": src, "data": data, "got": got})
 
     # ---- direct oracle
@@ -1480,6 +1527,9 @@ def main(chk: C.Check, build: C.Build) -> None:
         laws.guarded(laws.tie_laws, items, keys)
         twins = [5, 5.0, True, 1, 1.0, "5", [5, 1], [5.0, 1], [5, [True]], {"a": 1, "b": 2}, {"b": 2, "a": 1},
                  {"a": 1.0, "b": 2}, {"a": 1}, None, "<missing>", "", 0, False]
+        pool = NONDYADIC + [1, -2, 10, "0.1", "3", 0.5, 2.5, "1.25", "-0.7"]
+        laws.guarded(laws.sum_fold_laws, [0.1, 0.2] if n == 0 else
+                     [fresh(g.pick(pool)) for _ in range(r.choice([1, 2, 3, 4, 6]))])
         laws.guarded(laws.uniq_twin_laws, [fresh(g.pick(twins)) for _ in range(r.choice([3, 5, 8, 12]))])
         laws.guarded(laws.mutation_laws, g.pick([g.array("int"), g.array("str"), g.array("nested"),
                                                    g.array("hash-any"), g.array("any"), [3, 1, 2], ["b", "a"]]))
